@@ -31,7 +31,7 @@ META = dict(
                  "weights > 0, find_roots stubbed while weights are symbolic",
                  "join of independent pairs: when a junction knot is removed within the library's tolerance the joined curve is "
                  "required to stay within integral((A|B) - piecewise)^2 <= k^2*2*1e-9*max(1, L) for k removals, per coordinate",
-                 "paths on which more than two junction knots are removed inexactly (within the 1e-9 tolerance but with non-zero error) "
+                 "paths on which more than one junction knot is removed inexactly (within the 1e-9 tolerance but with non-zero error) "
                  "are not claimed: the bound could not be decided by the solver there"],
     outside=["join with symbolic knot values (the library inverts Gram matrices: needs concrete numbers)", "rational join",
              "more than 2 cuts"],
@@ -189,7 +189,7 @@ def _rejoin(env, cfg):
         else:
             # the junction knot was judged removable within the library's 1e-9 tolerance (m0 - mj times)
             k = m0 - mj
-            env.assume(k <= 2)  # deeper tolerance-level removals: outside the claim (see META)
+            env.assume(k <= 1)  # deeper tolerance-level removals: outside the claim (see META)
             bound = 2 * Fraction(1e-9) * max(1, vals[-1] - vals[0]) * k * k
             for c, e in enumerate(kmode.l2_sq(kv, P, kvJ, list(J.ctrlpoints))):
                 env.holds(f"rejoin at {cut} with {k} removal(s): integral of squared deviation within tolerance (coord {c})", e <= bound)
@@ -232,7 +232,7 @@ def _join(env, cfg):
         kmode.same_function(env, "A|B on A's interval", kva, P, None, kvJ, QJ, None, lo=va[0], hi=va[-1])
         kmode.same_function(env, "A|B on B's interval", kvb, Q, None, kvJ, QJ, None, lo=vb[0], hi=vb[-1])
     else:
-        env.assume(removed <= 2)  # deeper tolerance-level removals: outside the claim (see META)
+        env.assume(removed <= 1)  # deeper tolerance-level removals: outside the claim (see META)
         ea = kmode.l2_sq(kva, P, kvJ, QJ, lo=va[0], hi=va[-1])[0]
         eb = kmode.l2_sq(kvb, Q, kvJ, QJ, lo=vb[0], hi=vb[-1])[0]
         env.holds(f"junction knot removed {removed}x: deviation within the tolerance", ea + eb <= bound * removed * removed)
